@@ -18,6 +18,16 @@ static void my_action(int who, int kind, struct _mod *m, const m_queue_t *q);
 #include "l2.h"
 int vf_match(const void *reg, const char *topic) { (void)reg; return (topic && strncmp(topic, "LIBMODULE_MOD_", 14) == 0) ? 0 : REG_NOMATCH; }
 static void my_action(int who, int kind, m_mod_t *m, const m_queue_t *q) {
+#if SCEN == 2
+    /* X pauses itself inside its own start callback and lets the start succeed: it DID enter RUNNING (one MOD_STARTED)
+     * and left it again (one MOD_STOPPED) */
+    static _Bool acted;
+    if (who == 1 && kind == VF_CB_START && !acted) { acted = 1; int r = m_mod_pause(m); VF_CHECK(r == 0, "pause from the start callback"); }
+#elif SCEN == 3
+    /* X configures the context tick from its start callback, run by the loop's start-up evaluation pass */
+    static _Bool acted;
+    if (who == 1 && kind == VF_CB_START && !acted) { acted = 1; int r = m_ctx_set_tick(5000000); VF_CHECK(r == 0, "tick configured from a start callback"); }
+#endif
 #if SCEN == 0
     static _Bool acted;      /* the deregistration stops the module again: its stop callback re-enters */
     if (who == 1 && kind == VF_CB_STOP && !acted) { acted = 1; int r = m_mod_deregister(&vf_mods[1]); VF_CHECK(r == 0, "self-deregistration inside the stop callback"); }
@@ -39,14 +49,36 @@ int vf_main(void) {
 #if SCEN == 1
     r = m_mod_ps_subscribe(S, "LIBMODULE_MOD_.*", 0, NULL); VF_CHECK(r == 0, "and to a pattern matching both");
 #endif
+#if SCEN == 3
+    r = m_mod_ps_subscribe(S, M_PS_CTX_TICK, 0, NULL); VF_CHECK(r == 0, "S subscribes to the tick");
+#endif
     r = m_ctx_dispatch(); VF_CHECK(r == 0, "loop starts");
+#if SCEN == 2
+    VF_CHECK(m_mod_is(X, M_MOD_PAUSED) && vf_nstart[1] == 1, "X was started by the evaluation pass and paused itself");
+    for (int d = 0; d < 5; d++) r = m_ctx_dispatch();
+#elif SCEN == 3
+    VF_CHECK(m_mod_is(X, M_MOD_RUNNING) && vf_nstart[1] == 1, "X started");
+    for (int d = 0; d < 3; d++) r = m_ctx_dispatch();
+    VF_CHECK(vf_find_kind(VF_TIMER, 0) >= 0 && vf_find_kind(VF_TIMER, 1) < 0, "exactly one tick timer is armed");
+    int before = vf_nlog[0];
+    vf_fire_timers();
+    for (int d = 0; d < 4; d++) r = m_ctx_dispatch();
+    {
+        int ticks = 0;
+        for (int k = 0; k < VF_LOGN; k++) if (k >= before && k < vf_nlog[0] && vf_log[0][k].topic && strcmp(vf_log[0][k].topic, M_PS_CTX_TICK) == 0) ticks++;
+        VF_CHECK(ticks == 1 && vf_nlog[0] == before + 1, "one expiry of the period, one tick notification");
+    }
+#else
     VF_CHECK(m_mod_is(X, M_MOD_RUNNING) && vf_nstart[1] == 1, "X, idle so far, is started by the loop's evaluation pass");
     r = m_mod_stop(X);
     for (int d = 0; d < 5; d++) r = m_ctx_dispatch();
+#endif
+#if SCEN != 3
     VF_CHECK(count(M_PS_MOD_STARTED, keep) == 1, "exactly one MOD_STARTED naming X");
     VF_CHECK(count(M_PS_MOD_STOPPED, keep) == 1, "exactly one MOD_STOPPED naming X");
     for (int k = 0; k < VF_LOGN; k++) if (k < vf_nlog[0]) VF_CHECK(vf_log[0][k].system && vf_log[0][k].data == NULL, "system-flagged, payload-less");
     VF_CHECK(vf_nlog[0] == 2, "and nothing else");
+#endif
 #if SCEN == 0
     VF_CHECK(m_mod_is(keep, M_MOD_ZOMBIE), "X deregistered itself");
 #endif
